@@ -205,6 +205,8 @@ def install(E):
             c = SeqV(items=None if x.items is None else list(x.items), length=x.length, elem=x.elem, mem=x.mem,
                      inv=x.inv, kind='array', esort=x.esort, canon=x.canon, term=None)
             return c
+        if isinstance(x, SV) and x.tag == 'ndarray' and not a and not kw:
+            return x      # np.array(ndarray) is a value-equal copy (aliasing is C12's concern, not modelled here)
         r = E.app('numpy.array', [x] + list(a) + ([DictV(kw)] if kw else []), tag='ndarray')
         return r
     L['numpy.array'] = np_array
